@@ -199,6 +199,8 @@ class Tracer:
         if self.fault_k is not None and self.fault_on == "prior" and self.kp == self.fault_k:
             raise InjectedFault(f"prior call {self.kp}")
         val = self.prob.lp_np(x)
+        if getattr(self, "ret64", False):
+            return samples.xp.asarray(np.asarray(val, dtype=np.float64))
         return samples.xp.asarray(val, dtype=samples.dtype)
 
     def log_likelihood(self, samples):
@@ -230,6 +232,9 @@ class Tracer:
             if not has_prior:
                 raise AttributeError("recipe likelihood needs samples.log_prior")
             val = np.where(np.isfinite(to_np(lp)), val, -np.inf)
+        if getattr(self, "ret64", False):
+            # a user function that works in double precision whatever the precision of the samples
+            return samples.xp.asarray(np.asarray(val, dtype=np.float64))
         return samples.xp.asarray(val, dtype=samples.dtype)
 
     # ---- kernel / flow / rng observers ---------------------------------
@@ -406,6 +411,8 @@ def flag(cond_value, threshold, rel):
 def popdict(s):
     return {"x": to_np(s.x), "ll": to_np(s.log_likelihood), "lp": to_np(s.log_prior),
             "lq": to_np(s.log_q), "beta": getattr(s, "beta", None), "width": width_of(s.x),
+            # widths of every per-sample field that is present (a population has one precision)
+            "fwidths": sorted({width_of(v) for v in (s.x, s.log_likelihood, s.log_prior, s.log_q) if v is not None}),
             "ns": ns_of(s.x)}
 
 
@@ -504,6 +511,7 @@ def run_smc(cfg: dict, ids: IdTable | None = None, resume_from=None, role="singl
     prob = Problem(c["dims"], c["width"], c["center"], cut=c.get("cut"))
     prob.recipe = bool(c["recipe"])
     tr = Tracer(prob, ids, fault_k=c["fault_k"], recipe=c["recipe"], file_path=c["path"])
+    tr.ret64 = bool(c.get("ret64"))
     tr.fault_on = c["fault_on"]
     flow = make_flow(c, prob, xp)
     tr.flow = flow
@@ -723,6 +731,7 @@ def run_aspire(cfg: dict, ids: IdTable | None = None, role="single", resume_file
     prob = Problem(c["dims"], c["width"], c["center"])
     prob.recipe = bool(c["recipe"])
     tr = Tracer(prob, ids, fault_k=c["fault_k"], recipe=c["recipe"], file_path=c["path"])
+    tr.ret64 = bool(c.get("ret64"))
     tr.fault_on = c["fault_on"]
     # the measured run may be preceded, inside one auto_checkpoint context, by an earlier fit + run
     # and a refit (cfg["ctx"] = "refit"); the prelude is observed by a throw-away tracer
@@ -1024,7 +1033,8 @@ def _project_final(r, rank, hist_pops, hist_ids, betas, margin):
            "in_unit": [bool(0.0 < b <= 1.0) for b in betas],
            "pops": hist_ids, "sizes": [int(len(p["x"])) for p in hist_pops],
            "lens": _series_len(H), "nlike": int(r.get("nlike_total", S.n_likelihood_evaluations)) - int(r.get("nlike_offset", 0)),
-           "widths": sorted({p["width"] for p in hist_pops} | {width_of(res.x)}),
+           "widths": sorted({w_ for p in hist_pops for w_ in p.get("fwidths", [p["width"]])} | {width_of(res.x)}
+                            | {width_of(v) for v in (res.log_likelihood, res.log_prior, res.log_q) if v is not None}),
            "res_width": width_of(res.x), "res_ns": ns_of(res.x),
            "res_pop": ids.of(res.x)}
     # coherence of every stored population and of the result
